@@ -42,6 +42,7 @@ def run(col, configs, tier):
         guarded(col, X.rule_power_index_guards, facts)
         from rules import dispatch
         guarded(col, dispatch.rule_dispatch_table, facts)
+        guarded(col, dispatch.rule_check_radix_table, facts)
         guarded(col, X.rule_bigfloat_bits, facts)
         guarded(col, X.rule_bellerophon_underflow_order, facts)
         guarded(col, X.rule_quorem_correction, facts)
